@@ -145,7 +145,7 @@ def h_framing(a_i: int, a_j: int, fa: int, b_l: int, c_i: int, c_j: int, fc: int
         t1 = FILL[choose(fa, len(FILL))] + SEP[0:b_l]
         t2 = SEP[c_i:c_j] + FILL[choose(fc, len(FILL))]
     assume(SEP not in t1 and SEP not in t2)  # texts containing the separator are outside the format
-    r1, r2 = (2, 1) if swap else (1, 2)  # revision ids go through simplejson's C encoder: concrete, both orders
+    r1, r2 = (10, 9) if swap else (9, 10)  # revision ids go through simplejson's C encoder: concrete, both orders, different digit counts
     pages = [("Alpha", 0, r1, t1), ("Beta gamma", 0, r2, t2)]
     return untraced(_framing_concrete, pages, bool(exp))
 
@@ -167,7 +167,8 @@ def h_lookup(ta: int, tb: int, ra: int, rb: int, rc: int, order: int, text_a: st
     """several revisions of one title in any order: lookup by revid, by title (newest stored revision), through a redirect"""
     ta = choose(ta, len(TITLES))
     tb = (ta + 1) % len(TITLES)
-    ra, rb, rc = 1 + choose(ra, 3), 1 + choose(rb, 3), 1 + choose(rc, 3)  # concrete ids (simplejson is C), every order type of three ids
+    IDS = [9, 10, 101]  # concrete ids (simplejson is C) of different digit counts; every order type of three distinct ids
+    ra, rb, rc = IDS[choose(ra, 3)], IDS[choose(rb, 3)], IDS[choose(rc, 3)]
     assume(ra != rb and ra != rc and rb != rc)
     assume(len(text_a) <= 1 and in_alphabet(text_a, "x\n\r "))
     text_a, text_b, text_c = pinned(text_a), "", "\n"
